@@ -38,12 +38,18 @@ HasM(e) == e.ev = "Poll" /\ "mpre" \in DOMAIN e
 
 Rec == ndJsonDeserialize(IOEnv.TRACE)
 
-VARIABLES l, rs, bad, cov, dead, runs, conf, drift
-vars == <<l, rs, bad, cov, dead, runs, conf, drift>>
+VARIABLES l, rs, bad, cov, dead, deadc, runs, conf, drift
+vars == <<l, rs, bad, cov, dead, deadc, runs, conf, drift>>
+
+(* clauses whose violation does not disturb the monitor's tracking of the wire: the run is judged
+   further (each such clause is reported once per run); any other violation ends the judgement of
+   the run (no cascades) *)
+LocalClauses == {"C12.cadence", "C12.range", "C12.reply.state", "C12.reply.when", "C12.ready", "C13.hold",
+                 "C15.rr", "C15.done", "C15.form", "C02.stable", "C02.order", "C06.stable", "C06.order", "C06.alive"}
 
 NoCfg == [none |-> TRUE]
 
-TInit == l = 1 /\ rs = NoCfg /\ bad = <<>> /\ cov = [c \in AllClauses |-> 0] /\ dead = TRUE /\ runs = 0 /\ conf = [n |-> 0, ok |-> 0] /\ drift = <<>>
+TInit == l = 1 /\ rs = NoCfg /\ bad = <<>> /\ cov = [c \in AllClauses |-> 0] /\ dead = TRUE /\ deadc = {} /\ runs = 0 /\ conf = [n |-> 0, ok |-> 0] /\ drift = <<>>
 
 TNext ==
   /\ l <= Len(Rec)
@@ -57,16 +63,17 @@ TNext ==
               LET r == M!DoPoll(MeOf(rs.cfg, e), StateOfJson(e.mpre), e.in) IN
               PrintT(<<"DRIFT", l, "model", Canon(r.s), r.tx, r.cbs, "real", StateOfJson(e.mpost), e.mtx, e.mcbs>>)
   /\ LET e == Rec[l] IN
-     IF e.ev = "Cfg" THEN rs' = RuleInit(e) /\ dead' = FALSE /\ runs' = runs + 1 /\ UNCHANGED <<bad, cov>>
-     ELSE IF e.ev = "Reset" THEN dead' = TRUE /\ UNCHANGED <<rs, bad, cov, runs>>
-     ELSE IF dead THEN UNCHANGED <<rs, bad, cov, dead, runs>>
+     IF e.ev = "Cfg" THEN rs' = RuleInit(e) /\ dead' = FALSE /\ deadc' = {} /\ runs' = runs + 1 /\ UNCHANGED <<bad, cov>>
+     ELSE IF e.ev = "Reset" THEN dead' = TRUE /\ UNCHANGED <<rs, bad, cov, runs, deadc>>
+     ELSE IF dead THEN UNCHANGED <<rs, bad, cov, dead, deadc, runs>>
      ELSE LET r == RuleStep(rs, e) IN
           /\ rs' = r.rs
           /\ cov' = [c \in AllClauses |-> cov[c] + Cardinality({i \in DOMAIN r.hits : r.hits[i] = c})]
           /\ runs' = runs
-          /\ IF r.clause = "ok" THEN UNCHANGED <<bad, dead>>
+          /\ IF r.clause = "ok" \/ r.clause \in deadc THEN UNCHANGED <<bad, dead, deadc>>
              ELSE /\ bad' = Append(bad, [l |-> l, clause |-> r.clause, sig |-> r.sig])
-                  /\ dead' = TRUE       \* the rest of this run is not judged (no cascades)
+                  /\ dead' = (r.clause \notin LocalClauses)
+                  /\ deadc' = deadc \cup {r.clause}
 
 TSpec == TInit /\ [][TNext]_vars
 
